@@ -32,6 +32,9 @@ func c03Gen(rng *rand.Rand, tier string) []core.Spec {
 			sp := &ReaderSpec{Prop: 3, Server: server, Negotiated: negotiated, RBuf: core.Pick(rng, rbufChoices),
 				Chunks: chunkStream(rng, stream, bounds), Fault: 0, Glued: rng.Intn(4) == 0, Cmp: true, Drains: true}
 			sp.Custom = rng.Intn(3) == 0
+			if !sp.Custom && rng.Intn(8) == 0 {
+				sp.PreClose, sp.Cmp = true, false
+			}
 			sp.Ops = append(genReadProgram(rng, len(msgs)), drainOps(len(msgs)+2)...)
 			out = append(out, sp)
 		}
